@@ -37,7 +37,7 @@ CONFIG = dict(
          "vectors); commands with two or three literal-bearing arguments. Every case whose command contains k synchronising literals is run "
          "with the server answering: + at once; + after a pause; tagged NO; tagged BAD; and for k >= 2 also + then NO / BAD at the second. "
          "Sessions (about 1100 cases): the probe is written after the negotiated state changed — ENABLE then UNAUTHENTICATE answered with or without a "
-         "capability code (and ENABLE again), a later capability list replacing the greeting's (untagged CAPABILITY, LOGIN with/without the code) for "
+         "capability code (and ENABLE again), a second ENABLE answered with another, an empty or an overlapping `* ENABLED` list (the set accumulates), a later capability list replacing the greeting's (untagged CAPABILITY, LOGIN with/without the code) for "
          "every ordered pair of the base sets, and a capability list that arrives while the probe waits behind an APPEND holding the encoder; the "
          "oracle judges the probe against the server's state per RFC 9051 / 5161 / 8437 at the moment its bytes are written. "
          "Sequences: a command with 2-3 literal-bearing arguments whose first or second literal is refused, followed on the same connection by a "
